@@ -1,3 +1,4 @@
+import StepModel.Generated.HashGen
 /-!
 # Model of libexpress' linear hash table (`src/express/hash.c`) and `DICTdo` (`src/express/dict.c`)
 
@@ -18,11 +19,8 @@ sequence only.
 -/
 namespace StepModel.ExpressHash
 
-def segmentSize : Nat := 256      -- SEGMENT_SIZE
-def directorySize : Nat := 256    -- DIRECTORY_SIZE
-def prime1 : Nat := 37
-def prime2 : Nat := 1048583
-def maxLoadFactor : Nat := 5
+-- SEGMENT_SIZE, DIRECTORY_SIZE, PRIME1, PRIME2, MAX_LOAD_FACTOR: regenerated from include/express/hash.h
+export StepModel.Generated.Hash (segmentSize directorySize prime1 prime2 maxLoadFactor)
 def wordMod : Nat := 2 ^ 64        -- `Address` = unsigned long on the LP64 targets the check runs on
 
 /-- one step of the string-to-integer loop: `h = h * PRIME1 ^ (*k++ - ' ')`; the `int` operand is converted to
